@@ -6,7 +6,9 @@ COMMON_ASSUME = [
     "fault model for storage: process death (completed system calls and stores into shared mappings survive; user-space buffers and memory are lost); no power loss, no torn single write",
     "testing/synctest (go1.26.8) provides the fake clock and quiescence detection",
     "sync.Pool of the lindb packages is a per-run LIFO stack (deterministic reuse inside a run, nothing survives a run); pools inside third-party modules stay real",
-    "every worker process executes one throw-away run first, so that lazily initialised package state is the same for a plan found in a batch and for its replay in a fresh process",
+    "every worker process executes one throw-away run first, so that lazily initialised package state is the same for a plan found in a batch and for its replay in a fresh process; the first-use creation path of lindb's process-wide metric vectors (internal/linmetric WithTagValues) is no scheduling point; tools/replaycheck.py compares runs as k-th run of a process with their replay in a fresh process",
+    "files opened and mappings created by the code under test (os.Open/OpenFile/Create, unix.Mmap of lindb packages) are registered and released when a run is over, so that killed incarnations do not exhaust the worker process",
+    "I/O errors are injected only where the property's rule says so (C01: table files and removals; C05: opening a page; C08: the follower's append; C09: table writes of metadata / index flushes), as a reported failure of the operation, never as silently lost or torn data",
 ]
 
 PROPS = {
@@ -14,8 +16,8 @@ PROPS = {
         "harness": "walq", "level": "exploration", "per_proc": 250,
         "quick": {"runs": 40000, "budget_s": 240},
         "thorough": {"runs": 4000000, "budget_s": 1500, "shrink_runs": 600},
-        "rule": "Each run: 1-3 appender tasks put self-describing messages (8..512 bytes, page size knob 512 so data pages roll over, 8 index entries per index page) in 1-4 phases under a seeded schedule; a phase ends with nothing, close+reopen, or a process death placed by the tape at a function entry of pkg/queue or pkg/queue/page (between the individual mapped-page stores of an append) or while idle; optional queue ack + GC; a concurrent reader; a final append after the last reopen. Oracle: ledger sequence->message.",
-        "fault_kinds": ["crash-in-append", "crash-idle", "close-reopen"],
+        "rule": "Each run: 1-3 appender tasks put self-describing messages (8..512 bytes, page size knob 512 so data pages roll over, 8 index entries per index page) in 1-4 phases under a seeded schedule; a phase ends with nothing, close+reopen, or a process death placed by the tape at a function entry of pkg/queue or pkg/queue/page (between the individual mapped-page stores of an append) or while idle; optional queue ack + GC; a concurrent reader; a final append after the last reopen. Oracle: ledger sequence->message. In a quarter of the runs 1-2 data or index pages cannot be opened when an append needs them (out of descriptors / disk full): the append reports the failure and counts as not appended (like one in flight at a crash); every other message must read back as before and later appends must work.",
+        "fault_kinds": ["crash-in-append", "crash-idle", "close-reopen", "page-open-fails"],
         "real": ["pkg/queue (queue, page factory, mapped pages on tmpfs, real mmap)", "simrt scheduler decides every interleaving"],
         "stub": [],
         "assumptions": COMMON_ASSUME + ["compile-time knobs in the overlay only: pkg/queue.dataPageSize=512, indexItemsPerPage=8 (the shipped 128 MiB / 262144 never roll over in a test)"],
@@ -27,7 +29,7 @@ PROPS = {
         "harness": "walq", "level": "exploration", "per_proc": 250,
         "quick": {"runs": 40000, "budget_s": 240},
         "thorough": {"runs": 4000000, "budget_s": 1500, "shrink_runs": 600},
-        "rule": "Two run shapes. Sequential histories (5-40 operations over 1-3 groups: put / create-group / consume / ack inside, below and above the window / set-consumed / sync / gc / stop-group / reopen) checked after every operation against a reference model of (appended, queue ack, per-group consumed/ack) plus the invariants of the statement and readability of every sequence above the queue ack. Concurrent runs: appender, consumer, acker and a Sync/GC task on one group under a seeded schedule, positions monitored at every scheduling step, each Ack judged against the window bounds observed around the call; when the tasks have come to rest the queue is closed and reopened and appended / consumed / acknowledged must be what they were in memory.",
+        "rule": "Two run shapes. Sequential histories (5-40 operations over 1-3 groups: put / create-group / consume / ack inside, below and above the window / set-consumed / sync / gc / stop-group / reopen) checked after every operation against a reference model of (appended, queue ack, per-group consumed/ack) plus the invariants of the statement and readability of every sequence above the queue ack. Concurrent runs: appender, consumer, acker and a Sync/GC task on one group under a seeded schedule, positions monitored at every scheduling step, each Ack judged against the window bounds observed around the call; when the tasks have come to rest the queue is closed and reopened and appended / consumed / acknowledged must be what they were in memory. In half of the concurrent runs a second group is created while the others work (a follower that joins): the queue's acknowledged position must never be beyond that group's once its creation has returned.",
         "fault_kinds": ["close-reopen"],
         "real": ["pkg/queue (fan-out queue, consumer groups, queue, page factory, mapped pages on tmpfs)"],
         "stub": [],
@@ -69,7 +71,7 @@ PROPS["C02"] = {
     "harness": "kvs", "level": "exploration", "per_proc": 100,
     "quick": {"runs": 40000, "budget_s": 300},
     "thorough": {"runs": 1500000, "budget_s": 1700, "shrink_runs": 400},
-    "rule": "Each run: one family preloaded with 0-3 files; 1-2 flusher tasks (1-4 commits each), 1-3 reader tasks (take a snapshot, read everything through FindReaders+Get / Load / file iteration, hold it across yields or simulated sleeps up to 5 s, re-read, close) and a maintenance task (Family.Compact, background compaction tick incl. reader-cache cleanup, ForceRollup, clock jumps up to 4000 s past the cache TTL knob 10 ms / 1 s / 1 h), all under a seeded schedule; optionally every flushed file is registered for a rollup that never happens. Oracles: snapshot content stable and commit-atomic, visibility bounds by event order, delete/unmap seam monitor against files of held snapshots / unfinished writers / pending rollup files, reads with SetPanicOnFault.",
+    "rule": "Each run: one family preloaded with 0-3 files; 1-2 flusher tasks (1-4 commits each), 1-3 reader tasks (take a snapshot, read everything through FindReaders+Get / Load / file iteration, hold it across yields or simulated sleeps up to 5 s, re-read, close) and a maintenance task (Family.Compact, background compaction tick incl. reader-cache cleanup, ForceRollup, clock jumps up to 4000 s past the cache TTL knob 10 ms / 1 s / 1 h), all under a seeded schedule; optionally every flushed file is registered for a rollup that never happens. Oracles: snapshot content stable and commit-atomic, visibility bounds by event order, delete/unmap seam monitor against files of held snapshots / unfinished writers / pending rollup files, reads with SetPanicOnFault. In half of the runs a reader closes its snapshot from two tasks at once (lindb's result sets of one family share a kv snapshot and each closes it): the version must be released once.",
     "fault_kinds": ["clock-jump"],
     "real": ["kv (store, family, flusher, compaction job, obsolete-file deletion)", "kv/version (family version, version refcounts, snapshot)", "kv/table (reader cache, mmap readers)"],
     "stub": ["merger: harness token-set union"],
@@ -84,7 +86,7 @@ PROPS["C08"] = {
     "quick": {"runs": 30000, "budget_s": 300},
     "thorough": {"runs": 300000, "budget_s": 1700, "shrink_runs": 200, "shrink_timeout": 600},
     "rule": "Each run: a leader node and a follower node, each a real WriteAheadLogManager on its own directory; the leader's partition replicates through its real local and remote replicators, the follower answers through the real storage RPC ReplicaHandler; unary calls and the bidirectional stream are simulated (1 ms latency per hop). 4-17 operations: leader appends of unique messages, waits, follower restart (clean / process death / death + log directory lost), follower offline/online with (duplicate) notifications, leader Sync+GC, leader restart (clean / death / death + an older image of its log restored = lost tail; also as a macro 'the leader loses exactly the last 1-2 messages the follower already has'); the follower's log append fails with an I/O error at tape-chosen calls; in addition the tape breaks streams before delivery, after the request was delivered (stale delivery by the dead stream's handler), fails stream creation and unary calls before/after they took effect. After the last fault: settle, then two more appends must reach the follower at the leader's positions within 120 simulated seconds. In half of the runs the follower's stream handlers stall for 1-12 simulated ms at tape-chosen function entries of the replica / queue packages and lock acquisitions (slow disk), so that the handler of a broken stream and its successor overlap inside ReplicaLog.",
-    "fault_kinds": ["follower-put-fails", "break-before-delivery", "break-after-request", "stale-delivery", "stream-open-fail", "unary-fail-before", "unary-fail-after", "follower-restart-0", "follower-restart-1", "follower-log-lost", "follower-offline", "duplicate-online-notification", "leader-gc", "leader-restart-0", "leader-restart-1", "leader-tail-lost", "follower-stall"],
+    "fault_kinds": ["follower-put-fails", "break-before-delivery", "break-after-request", "stale-delivery", "stream-open-fail", "unary-fail-before", "unary-fail-after", "follower-restart-0", "follower-restart-1", "follower-log-lost", "follower-offline", "duplicate-online-notification", "leader-gc", "leader-restart-0", "leader-restart-1", "leader-tail-lost", "follower-stall", "follower-flap"],
     "real": ["replica (wal manager, wal, partition, local replicator, remote replicator incl. handshake)", "app/storage/rpc ReplicaHandler", "pkg/queue (fan-out queue, consumer groups, pages on tmpfs)"],
     "stub": ["tsdb.Engine / Shard / DataFamily (interfaces; replication of a log never touches tsdb data)", "coordinator/storage StateManager (live-node table + notifications driven by the plan)", "rpc.ClientStreamFactory and the gRPC streams (simnet: ordered, reliable until broken)"],
     "assumptions": COMMON_ASSUME + ["gRPC semantics modelled: a stream is ordered and reliable until it breaks; unary calls either fail before or after taking effect", "positions destroyed by a leader tail loss are exempt from byte comparison until the handshake re-aligned the indexes", "compile-time knobs: queue page size 512 bytes, 8 index entries per page"],
@@ -179,7 +181,7 @@ PROPS["C03"] = {
     "harness": "mdata", "level": "exploration", "per_proc": 80, "proc_timeout": 900,
     "quick": {"runs": 20000, "budget_s": 300},
     "thorough": {"runs": 400000, "budget_s": 1700, "shrink_runs": 300, "shrink_timeout": 600},
-    "rule": "Each run: one data family with the real metric-data merger; 4-12 operations out of flush (a generated file: 1-3 metrics, a subset of six fields of all types sum/min/max/last/first/histogram, slot range narrow / wide / random inside 0..39, 1-6 series out of ids around the 65536 boundaries, per (series, field) optionally no data, per slot optionally no value, integer values) written through the real metricsdata flusher, Family.Compact and the background compaction tick (compaction threshold 0/2/3, max output file size 0/200/1500 bytes so outputs split), optionally a reader task holding a snapshot across the compaction under a seeded schedule. After every operation every block of the current version is decoded with the real reader and compared cell by cell (metric, series, field, slot) with the reference model.",
+    "rule": "Each run: one data family with the real metric-data merger; 4-12 operations out of flush (a generated file: 1-3 metrics, a subset of six fields of all types sum/min/max/last/first/histogram, slot range narrow / wide / random inside 0..39, 1-6 series out of ids around the 65536 boundaries, per (series, field) optionally no data, per slot optionally no value, integer values) written through the real metricsdata flusher, Family.Compact and the background compaction tick (compaction threshold 0/2/3, max output file size 0/200/1500 bytes so outputs split), optionally a reader task holding a snapshot across the compaction under a seeded schedule. After every operation every block of the current version is decoded with the real reader and compared cell by cell (metric, series, field, slot) with the reference model. Two fifths of the runs use families of 400 or 720 slots (store intervals with more than 360 slots per family), the others 40.",
     "fault_kinds": ["compaction-changed-files"],
     "real": ["tsdb/tblstore/metricsdata (flusher, reader, data scanner, merger, series merger, field reader)", "aggregation/down_sampling_agg", "kv compaction job and compact flusher", "pkg/encoding TSD/XOR/fixed-offset codecs"],
     "stub": [],
@@ -192,8 +194,8 @@ PROPS["C04"] = {
     "harness": "mdata", "level": "exploration", "per_proc": 80, "proc_timeout": 900,
     "quick": {"runs": 20000, "budget_s": 300},
     "thorough": {"runs": 400000, "budget_s": 1700, "shrink_runs": 300, "shrink_timeout": 600},
-    "rule": "Each run: a source store of 10 s interval (day calculator, segment 2000-01-01 / 03 / 31, families = hours 0, 5, 23) and target stores of 5 min (month calculator) and/or 1 h (year calculator) under the directory names the rollup code parses, all in one store manager. 6-15 operations: flush a generated file (as C03, slots 0..359) into a source family, ForceRollup, two overlapping rollup triggers, background tick (compaction + rollup), compaction of a source family, clean close+reopen; optionally process death at a file-system seam operation during rollup/tick operations followed by restart and rollup again. Whenever no rollup entry is pending, every target family is decoded and compared with the aggregate of exactly those source slots whose timestamps fall into each target slot (computed from timestamps, independently of the calculators); sum fields expose double application as 2x.",
-    "fault_kinds": ["crash@write", "crash@sync", "overlapping-rollup-trigger", "close-reopen"],
+    "rule": "Each run: a source store of 10 s interval (day calculator, segment 2000-01-01 / 03 / 31, families = hours 0, 5, 23) and target stores of 5 min (month calculator) and/or 1 h (year calculator) under the directory names the rollup code parses, all in one store manager. 6-15 operations: flush a generated file (as C03, slots 0..359) into a source family, ForceRollup, two overlapping rollup triggers, background tick (compaction + rollup), compaction of a source family, clean close+reopen; optionally process death at a file-system seam operation during rollup/tick operations followed by restart and rollup again. Whenever no rollup entry is pending, every target family is decoded and compared with the aggregate of exactly those source slots whose timestamps fall into each target slot (computed from timestamps, independently of the calculators); sum fields expose double application as 2x. One history in twelve contains a rollup whose process dies exactly between the commit in a target family and the commit in the source family, optionally more data for the same source family, and the rollup again (without the settling rollup that otherwise follows a restart).",
+    "fault_kinds": ["crash@write", "crash@sync", "overlapping-rollup-trigger", "close-reopen", "crash-between-target-and-source-commit"],
     "real": ["kv/family_rollup.go, kv/version rollup bookkeeping, kv flusher (rollup registration)", "metricsdata merger in rollup mode + aggregation down sampling", "pkg/timeutil calculators", "kv store manager"],
     "stub": [],
     "assumptions": COMMON_ASSUME + ["process time zone is UTC (the supervisor sets TZ=UTC)"],
